@@ -63,6 +63,9 @@ class C15(Prop):
         # one decorator object may decorate two functions: each has its own window
         two_functions = s.chance(1, 4, "two-functions")
         odd_kwargs = {"limit": 9, "period": 3} if s.chance(1, 3, "odd-kwargs") else {}
+        # the library reads time.monotonic, the loop has its own clock: they need not share an epoch (and a long uptime
+        # makes the readings large)
+        sim.mono_epoch = (0.0, 0.0, 4096.0, 5000000.0)[s.draw(4, "clock-epoch")]
         gaps = (0, 0, 1, p_steps - 1, p_steps, p_steps + 1, p_steps // 2, 2 * p_steps)
         durs = (0, 0, p_steps // 2, p_steps, 2 * p_steps)
         t = (0, 5, p_steps)[s.draw(3, "t0")]
@@ -77,7 +80,7 @@ class C15(Prop):
                 j = s.draw(n, "victim")
                 off = (0, 1, p_steps // 2, p_steps, p_steps + 1)[s.draw(5, "cancel-off")]
                 calls[j]["cancel"] = calls[j]["at"] + off
-        sim.program = {"limit": limit, "period_steps": p_steps, "period_as": type(period_arg).__name__,
+        sim.program = {"limit": limit, "period_steps": p_steps, "monotonic_epoch": sim.mono_epoch, "period_as": type(period_arg).__name__,
                        "calls": calls}
 
         results = [Obj(("r", i)) for i in range(n)]
